@@ -95,6 +95,15 @@ class Gen:
             self.w("%so.F(%s, %s);" % (pad, n, self.bits_expr(m, getter)))
             if m.kind == "scalar" and m.presence == "optional" and self.null_flags:
                 self.w("%so.tok(%s.has_value() ? \"hv\" : \"null\");" % (pad, getter))
+            if m.kind == "set" and tagctx is not None:
+                # every choice read through get_by_tag<ChoiceTag>(set)
+                stag = self.member_tag(m, tagctx)
+                sv = self.fresh("s")
+                self.w("%s{ auto %s = %s; std::string t_;" % (pad, sv, getter))
+                for ch in m.target["choices"]:
+                    self.w("%s  t_ += (t_.empty() ? \"\" : \",\"); t_ += %s; t_ += sbepp::get_by_tag<%s::%s>(%s) ? \"=1\" : \"=0\";" % (
+                        pad, cstr(ch["name"]), stag, ch["name"], sv))
+                self.w("%s  o.tok(\"S \" + (t_.empty() ? std::string(\"-\") : t_)); }" % pad)
         elif m.kind == "array":
             a = self.fresh("a")
             self.w("%s{ auto %s = %s; o.A(%s, %s.data(), %s.size()); }" % (pad, a, getter, n, a, a))
@@ -486,6 +495,14 @@ class Gen:
             w("    default: o.err(\"bad index\"); }")
             w("    o.kv(\"valid\", r.valid ? 1 : 0); o.kv(\"size\", r.size);")
             w("}")
+            # ---- size of the first root-level group from its header alone (huge numInGroup x blockLength products)
+            w("static void gsize_%d(unsigned char* p, std::size_t n, rt::Out& o) {" % i)
+            w("    auto v0 = sbepp::make_const_view<%s>(p, n); (void)v0;" % view)
+            if L.groups and not L.groups[0].groups and not L.groups[0].data:
+                w("    auto g = v0.%s(); o.kv(\"gsize\", sbepp::size_bytes(g)); o.kv(\"n\", g.size());" % L.groups[0].name)
+            else:
+                w("    o.tok(\"na\");")
+            w("}")
             # ---- sizes
             w("static void sizes_%d(unsigned char* p, std::size_t n, rt::Out& o) {" % i)
             w("    auto v0 = sbepp::make_const_view<%s>(p, n);" % view)
@@ -529,6 +546,11 @@ class Gen:
         w("        switch(mi) {")
         for i in range(len(m.messages)):
             w("        case %d: if(mode == \"ra\") dump_ra_%d(p, img.size(), o); else if(mode == \"cur\") dump_cur_%d(p, img.size(), o); else if(mode == \"tag\") dump_tag_%d(p, img.size(), o); else dump_vis_%d(p, img.size(), o); return true;" % (i, i, i, i, i))
+        w("        default: return false; } }")
+        w("    if(cmd == \"gsize\") { std::vector<unsigned char> img = tk.bytes(); unsigned char* p = gb.place(img.data(), img.size(), true);")
+        w("        switch(mi) {")
+        for i in range(len(m.messages)):
+            w("        case %d: gsize_%d(p, img.size(), o); return true;" % (i, i))
         w("        default: return false; } }")
         w("    if(cmd == \"sizes\") { std::vector<unsigned char> img = tk.bytes(); unsigned char* p = gb.place(img.data(), img.size(), true);")
         w("        switch(mi) {")
